@@ -1,7 +1,8 @@
 SPECIFICATION Spec
 CONSTANTS
-  Groups = {"wallet", "blockrelay", "messenger", "controller", "cache", "validators", "attester"}
+  Groups = {"wallet", "blockrelay", "messenger", "controller", "cache", "validators", "attester", "registrar", "bids", "restcfg", "exechead", "syncagg", "bestvotes", "bidstrategy"}
   Pinned = FALSE
+  InPlace = FALSE
   MaxPar = 3
 INVARIANTS TypeOK Linearizable Disciplined
 CONSTRAINT Bounded
